@@ -25,7 +25,6 @@ import (
 	"sigs.k8s.io/controller-runtime/pkg/webhook/admission"
 
 	configv1alpha1 "github.com/koordinator-sh/koordinator/apis/config/v1alpha1"
-	apiext "github.com/koordinator-sh/koordinator/apis/extension"
 	"github.com/koordinator-sh/koordinator/pkg/features"
 	"github.com/koordinator-sh/koordinator/pkg/util/feature"
 )
@@ -37,9 +36,31 @@ import (
 // native entries erased, requests defaulted, annotation = final spec, re-admission changes nothing.
 
 // ---- C13 shared helpers (identical copy in the validating and the mutating harness) ----
+// Names are the LITERAL strings of the protocol (not the apis/extension identifiers): renaming a Go
+// identifier in /repo is harmless, changing the VALUE of a constant makes the implementation
+// disagree with the model / the oracle on these literals (and breaks a tie lemma of Ties/C13.lean).
 
-var c13ResNames = []corev1.ResourceName{corev1.ResourceCPU, corev1.ResourceMemory, apiext.BatchCPU, apiext.BatchMemory,
-	apiext.MidCPU, apiext.MidMemory, "example.com/foo"}
+const (
+	c13LabelQoS = "koordinator.sh/qosClass"
+	c13LabelPC  = "koordinator.sh/priority-class"
+	c13LabelSub = "koordinator.sh/priority"
+	c13LabelSrc = "c13/src" // a foreign label: source / target of labelKeysMapping
+	c13AnnExt   = "node.koordinator.sh/extended-resource-spec"
+	c13AnnSkip  = "config.koordinator.sh/skip-update-resources"
+)
+
+var c13LabelKeys = []string{c13LabelQoS, c13LabelPC, c13LabelSrc} // key codes 0 1 2
+
+var c13ResNames = []corev1.ResourceName{"cpu", "memory", "kubernetes.io/batch-cpu", "kubernetes.io/batch-memory",
+	"kubernetes.io/mid-cpu", "kubernetes.io/mid-memory", "example.com/foo"}
+
+// the JSON shape of the summary annotation, restated
+type c13ExtSpec struct {
+	Containers map[string]struct {
+		Limits   corev1.ResourceList `json:"limits,omitempty"`
+		Requests corev1.ResourceList `json:"requests,omitempty"`
+	} `json:"containers,omitempty"`
+}
 
 func c13ResCode(n corev1.ResourceName) int {
 	for i, x := range c13ResNames {
@@ -53,17 +74,22 @@ func c13ResCode(n corev1.ResourceName) int {
 var c13QoSNames = []string{"", "LSE", "LSR", "LS", "BE", "SYSTEM"} // code 0 = a string naming no class
 var c13PCNames = []string{"", "koord-prod", "koord-mid", "koord-batch", "koord-free"}
 
-func c13NameCode(names []string, labels map[string]string, key string) int {
+// c13EncStr: LSTR of a present string: <n> <byte>*
+func c13EncStr(v string) string {
+	parts := []string{strconv.Itoa(len(v))}
+	for i := 0; i < len(v); i++ {
+		parts = append(parts, strconv.Itoa(int(v[i])))
+	}
+	return strings.Join(parts, " ")
+}
+
+// c13EncLabel: LSTR of a label (absent = -1)
+func c13EncLabel(labels map[string]string, key string) string {
 	v, ok := labels[key]
 	if !ok {
-		return -1
+		return "-1"
 	}
-	for i := 1; i < len(names); i++ {
-		if names[i] == v {
-			return i
-		}
-	}
-	return 0
+	return c13EncStr(v)
 }
 
 // c13Nano: the exact amount of a quantity in nano-units (Quantity has no finer precision).
@@ -114,11 +140,11 @@ func c13EncOptQ(l corev1.ResourceList, k corev1.ResourceName) string {
 }
 
 func c13EncAnnot(ann map[string]string) string {
-	data, ok := ann[apiext.AnnotationExtendedResourceSpec]
+	data, ok := ann[c13AnnExt]
 	if !ok {
 		return "0"
 	}
-	spec := &apiext.ExtendedResourceSpec{}
+	spec := &c13ExtSpec{}
 	if err := json.Unmarshal([]byte(data), spec); err != nil {
 		return "1"
 	}
@@ -131,8 +157,8 @@ func c13EncAnnot(ann map[string]string) string {
 	for _, n := range names {
 		c := spec.Containers[n]
 		parts = append(parts, strconv.Itoa(c13CtrCode(n)),
-			c13EncOptQ(c.Requests, apiext.BatchCPU), c13EncOptQ(c.Requests, apiext.BatchMemory),
-			c13EncOptQ(c.Limits, apiext.BatchCPU), c13EncOptQ(c.Limits, apiext.BatchMemory))
+			c13EncOptQ(c.Requests, "kubernetes.io/batch-cpu"), c13EncOptQ(c.Requests, "kubernetes.io/batch-memory"),
+			c13EncOptQ(c.Limits, "kubernetes.io/batch-cpu"), c13EncOptQ(c.Limits, "kubernetes.io/batch-memory"))
 	}
 	return strings.Join(parts, " ")
 }
@@ -143,16 +169,26 @@ func c13EncMeta(pod *corev1.Pod) string {
 		hp, pv = 1, int64(*pod.Spec.Priority)
 	}
 	hs, sv := 0, int64(0)
-	if s := pod.Labels[apiext.LabelPodPriority]; s != "" {
+	if s := pod.Labels[c13LabelSub]; s != "" {
 		n, _ := strconv.ParseInt(s, 10, 64)
 		hs, sv = 1, n
 	}
-	return fmt.Sprintf("%d %d %d %d %d %d", c13NameCode(c13QoSNames, pod.Labels, apiext.LabelPodQoS),
-		c13NameCode(c13PCNames, pod.Labels, apiext.LabelPodPriorityClass), hp, pv, hs, sv)
+	return fmt.Sprintf("%s %s %s %d %d %d %d", c13EncLabel(pod.Labels, c13LabelQoS), c13EncLabel(pod.Labels, c13LabelPC),
+		c13EncLabel(pod.Labels, c13LabelSrc), hp, pv, hs, sv)
 }
 
-func c13EncCtr(c *corev1.Container) string {
+func c13IsSidecar(c *corev1.Container) bool {
+	return c.RestartPolicy != nil && *c.RestartPolicy == corev1.ContainerRestartPolicyAlways
+}
+
+// c13EncCtrObs: the observation form (name, requests, limits)
+func c13EncCtrObs(c *corev1.Container) string {
 	return fmt.Sprintf("%d %s %s", c13CtrCode(c.Name), c13EncRL(c.Resources.Requests), c13EncRL(c.Resources.Limits))
+}
+
+// c13EncCtr: the CTR token sequence (name, sidecar, requests, limits)
+func c13EncCtr(c *corev1.Container) string {
+	return fmt.Sprintf("%d %d %s %s", c13CtrCode(c.Name), vB(c13IsSidecar(c)), c13EncRL(c.Resources.Requests), c13EncRL(c.Resources.Limits))
 }
 
 // c13EncPod: the POD token sequence of the line protocol (see lean/KoordVerif/Driver/C13.lean).
@@ -164,7 +200,8 @@ func c13EncPod(pod *corev1.Pod) string {
 		st = 2
 	}
 	parts := []string{c13EncMeta(pod), strconv.Itoa(st), c13EncAnnot(pod.Annotations),
-		strconv.Itoa(len(pod.Spec.InitContainers)), strconv.Itoa(len(pod.Spec.Containers)), strconv.Itoa(vB(pod.Spec.Overhead != nil))}
+		strconv.Itoa(len(pod.Spec.InitContainers)), strconv.Itoa(len(pod.Spec.Containers)), strconv.Itoa(vB(pod.Spec.Overhead != nil)),
+		strconv.Itoa(vB(pod.Spec.Resources != nil))}
 	for i := range pod.Spec.InitContainers {
 		parts = append(parts, c13EncCtr(&pod.Spec.InitContainers[i]))
 	}
@@ -174,13 +211,24 @@ func c13EncPod(pod *corev1.Pod) string {
 	if pod.Spec.Overhead != nil {
 		parts = append(parts, c13EncRL(pod.Spec.Overhead))
 	}
+	if pod.Spec.Resources != nil {
+		parts = append(parts, c13EncRL(pod.Spec.Resources.Requests), c13EncRL(pod.Spec.Resources.Limits))
+	}
 	return strings.Join(parts, " ")
 }
 
 var c13CPUStrs = []string{"1", "2", "4", "500m", "1m", "0.0005", "1500m", "0", "0.1", "999999900n", "1000000100n", "100u", "2000m", "3", "250m", "1001m", "16"}
 var c13MemStrs = []string{"1Gi", "512Mi", "1.5Gi", "100M", "128974848", "0", "1e3", "123456789m", "4Gi", "1Ki", "1", "64Mi", "2G"}
+var c13NegStrs = []string{"-1", "-2", "-500m", "-1m", "-0.0005", "-1500m", "-999999900n", "-1Gi", "-1", "-100u"}
+
+// c13Neg: set by a generator for the pods that may carry negative quantities (invalid for the API
+// server, but admission webhooks run before validation).
+var c13Neg = false
 
 func c13Q(r *vRand, code int) resource.Quantity {
+	if c13Neg && r.Chance(1, 5) {
+		return resource.MustParse(c13NegStrs[r.Intn(len(c13NegStrs))])
+	}
 	switch code {
 	case 0:
 		if r.Chance(1, 4) {
@@ -204,6 +252,68 @@ func c13Q(r *vRand, code int) resource.Quantity {
 		return resource.MustParse(c13MemStrs[r.Intn(len(c13MemStrs))])
 	}
 	return *resource.NewQuantity(int64(r.Range(0, 8)), resource.DecimalSI)
+}
+
+// c13GenPodLevel: spec.resources (pod-level requests / limits of cpu and memory; rarely empty or foreign only)
+func c13GenPodLevel(r *vRand, wholeCPU bool) *corev1.ResourceRequirements {
+	rr := &corev1.ResourceRequirements{}
+	if r.Chance(1, 8) {
+		if r.Bool() {
+			rr.Requests = corev1.ResourceList{}
+		}
+		return rr
+	}
+	req, lim := corev1.ResourceList{}, corev1.ResourceList{}
+	if r.Chance(2, 3) {
+		q := c13Q(r, 0)
+		if wholeCPU {
+			q = *resource.NewQuantity(int64(r.Range(1, 8)), resource.DecimalSI)
+		}
+		req["cpu"] = q
+	}
+	if r.Chance(1, 2) {
+		req["memory"] = c13Q(r, 1)
+	}
+	if r.Chance(1, 8) {
+		req["example.com/foo"] = c13Q(r, 6)
+	}
+	if r.Chance(1, 2) {
+		lim["cpu"] = c13Q(r, 0)
+	}
+	if r.Chance(1, 2) {
+		lim["memory"] = c13Q(r, 1)
+	}
+	if len(req) > 0 || r.Bool() {
+		rr.Requests = req
+	}
+	if len(lim) > 0 || r.Bool() {
+		rr.Limits = lim
+	}
+	return rr
+}
+
+// c13AllNonNegative: no negative quantity anywhere in the pod's resource lists
+func c13AllNonNegative(pod *corev1.Pod) bool {
+	ok := true
+	chk := func(l corev1.ResourceList) {
+		for _, q := range l {
+			if q.Sign() < 0 {
+				ok = false
+			}
+		}
+	}
+	for _, cs := range [][]corev1.Container{pod.Spec.InitContainers, pod.Spec.Containers} {
+		for i := range cs {
+			chk(cs[i].Resources.Requests)
+			chk(cs[i].Resources.Limits)
+		}
+	}
+	chk(pod.Spec.Overhead)
+	if pod.Spec.Resources != nil {
+		chk(pod.Spec.Resources.Requests)
+		chk(pod.Spec.Resources.Limits)
+	}
+	return ok
 }
 
 // c13Resources: one container's requirements.  shape: 0 req=lim, 1 limits only, 2 requests only,
@@ -320,11 +430,71 @@ func c13PickStr(r *vRand, xs []string) string { return xs[r.Intn(len(xs))] }
 
 // ---- end of shared helpers ----
 
+type c13KV struct {
+	key int // index into c13LabelKeys
+	val string
+}
+
+type c13ResPatch struct {
+	ctr, isLimit, res int
+	q                 resource.Quantity
+}
+
 type c13Profile struct {
-	name, matched, skipRes, hasProb, prob, qos, pcLabel, hasPrio int
-	prio                                                          int64
-	hasSub                                                        int
-	sub                                                           int64
+	name, matched, skipRes, hasProb, prob int
+	hasQoS                                bool
+	qos                                   string // spec.qosClass (non-empty when hasQoS)
+	hasPrio                               int
+	prio                                  int64
+	hasSub                                int
+	sub                                   int64
+	labels                                []c13KV  // spec.labels (distinct keys)
+	keyMap                                [][2]int // spec.labelKeysMapping old -> new (at most one entry: Go map order)
+	suffixes                              []c13KV  // spec.labelSuffixes (distinct keys)
+	hasPatch                              bool
+	patchLabels                           []c13KV
+	hasPatchPrio                          bool
+	patchPrio                             int64
+	patchRes                              []c13ResPatch
+}
+
+// simple: an "overwrite with constants or keep" profile (hypothesis AppliedSimple of readmission_idempotent)
+func (p *c13Profile) simple() bool {
+	return len(p.keyMap) == 0 && len(p.suffixes) == 0 && !p.hasPatch
+}
+
+func (p *c13Profile) skipped(rnd int) bool {
+	percent := 100
+	if p.hasProb == 1 {
+		percent = p.prob
+	}
+	return percent == 0 || (percent != 100 && rnd > percent)
+}
+
+func c13EncKVs(kvs []c13KV) string {
+	parts := []string{strconv.Itoa(len(kvs))}
+	for _, kv := range kvs {
+		parts = append(parts, strconv.Itoa(kv.key), c13EncStr(kv.val))
+	}
+	return strings.Join(parts, " ")
+}
+
+func (p *c13Profile) opLine() string {
+	q := "-1"
+	if p.hasQoS {
+		q = c13EncStr(p.qos)
+	}
+	parts := []string{fmt.Sprintf("profile %d %d %d %d %d %s %d %d %d %d", p.name, p.matched, p.skipRes, p.hasProb, p.prob, q, p.hasPrio, p.prio, p.hasSub, p.sub),
+		c13EncKVs(p.labels), strconv.Itoa(len(p.keyMap))}
+	for _, m := range p.keyMap {
+		parts = append(parts, strconv.Itoa(m[0]), strconv.Itoa(m[1]))
+	}
+	parts = append(parts, c13EncKVs(p.suffixes), strconv.Itoa(vB(p.hasPatch)), c13EncKVs(p.patchLabels), strconv.Itoa(vB(p.hasPatchPrio)), strconv.FormatInt(p.patchPrio, 10),
+		strconv.Itoa(len(p.patchRes)))
+	for _, rp := range p.patchRes {
+		parts = append(parts, strconv.Itoa(rp.ctr), strconv.Itoa(rp.isLimit), strconv.Itoa(rp.res), c13Nano(rp.q).String())
+	}
+	return strings.Join(parts, " ")
 }
 
 func c13GenMutatingPod(r *vRand) *corev1.Pod {
@@ -340,17 +510,17 @@ func c13GenMutatingPod(r *vRand) *corev1.Pod {
 	}
 	switch q := int(r.Pick([]int64{4, 4, 4, 4, 3, 3, 2, 1, 5, 0, -1, -1, -1})); {
 	case q == 0:
-		setLabel(apiext.LabelPodQoS, c13PickStr(r, []string{"foo", ""}))
+		setLabel(c13LabelQoS, c13PickStr(r, []string{"foo", ""}))
 	case q > 0:
-		setLabel(apiext.LabelPodQoS, c13QoSNames[q])
+		setLabel(c13LabelQoS, c13QoSNames[q])
 	}
 	pc := int(r.Pick([]int64{3, 3, 3, 3, 2, 2, 2, 1, 4, 0}))
 	switch r.Intn(10) {
 	case 0:
 		if pc == 0 {
-			setLabel(apiext.LabelPodPriorityClass, c13PickStr(r, []string{"foo", ""}))
+			setLabel(c13LabelPC, c13PickStr(r, []string{"foo", ""}))
 		} else {
-			setLabel(apiext.LabelPodPriorityClass, c13PCNames[pc])
+			setLabel(c13LabelPC, c13PCNames[pc])
 		}
 		if r.Bool() {
 			v := int32(r.Pick(c13Priorities))
@@ -362,12 +532,17 @@ func c13GenMutatingPod(r *vRand) *corev1.Pod {
 		pod.Spec.Priority = &v
 	}
 	if r.Chance(1, 6) {
-		setLabel(apiext.LabelPodPriority, strconv.Itoa(r.Range(0, 3)))
+		setLabel(c13LabelSub, strconv.Itoa(r.Range(0, 3)))
+	}
+	if r.Chance(1, 5) { // a foreign label whose value may name a class: source of labelKeysMapping
+		setLabel(c13LabelSrc, c13PickStr(r, []string{"BE", "LS", "LSR", "koord-batch", "koord-mid", "koord-prod", "x", ""}))
 	}
 	if r.Chance(1, 12) {
 		pod.Status.QOSClass = corev1.PodQOSClass(c13PickStr(r, []string{"BestEffort", "Burstable", "Guaranteed"}))
 	}
 	ext := int(r.Pick([]int64{0, 0, 10, 30}))
+	c13Neg = r.Chance(1, 12)
+	defer func() { c13Neg = false }()
 	bare := r.Chance(1, 8) // no native cpu/memory at all: kube QoS BestEffort
 	mk := func() corev1.ResourceRequirements {
 		rr := c13Resources(r, false, ext)
@@ -393,7 +568,19 @@ func c13GenMutatingPod(r *vRand) *corev1.Pod {
 	}
 	ni := int(r.Pick([]int64{0, 0, 0, 1, 2}))
 	for i := 0; i < ni; i++ {
-		pod.Spec.InitContainers = append(pod.Spec.InitContainers, corev1.Container{Name: fmt.Sprintf("c%d", 10+i), Resources: mk()})
+		ic := corev1.Container{Name: fmt.Sprintf("c%d", 10+i), Resources: mk()}
+		if r.Chance(1, 3) { // a sidecar
+			always := corev1.ContainerRestartPolicyAlways
+			ic.RestartPolicy = &always
+		}
+		pod.Spec.InitContainers = append(pod.Spec.InitContainers, ic)
+	}
+	if r.Chance(1, 8) { // pod-level resources: the Kubernetes QoS (and so the default class) is computed from them alone
+		if bare && r.Bool() {
+			pod.Spec.Resources = &corev1.ResourceRequirements{}
+		} else {
+			pod.Spec.Resources = c13GenPodLevel(r, false)
+		}
 	}
 	if r.Chance(1, 4) {
 		pod.Spec.Overhead = mk().Requests
@@ -402,33 +589,47 @@ func c13GenMutatingPod(r *vRand) *corev1.Pod {
 		}
 	}
 	// a pre-existing (stale / user-written / broken) summary annotation
-	switch r.Intn(14) {
+	switch r.Intn(12) {
 	case 0:
-		pod.Annotations = map[string]string{apiext.AnnotationExtendedResourceSpec: c13PickStr(r, []string{"{", "[]", "not json", `{"containers":{"c0":{"limits":{"kubernetes.io/batch-cpu":"x"}}}}`})}
+		pod.Annotations = map[string]string{c13AnnExt: c13PickStr(r, []string{"{", "[]", "not json", `{"containers":{"c0":{"limits":{"kubernetes.io/batch-cpu":"x"}}}}`})}
 	case 1:
-		pod.Annotations = map[string]string{apiext.AnnotationExtendedResourceSpec: c13PickStr(r, []string{"{}", `{"containers":{}}`, `{"containers":{"c0":{}}}`,
+		pod.Annotations = map[string]string{c13AnnExt: c13PickStr(r, []string{"{}", `{"containers":{}}`, `{"containers":{"c0":{}}}`,
 			`{"containers":{"c0":{"limits":{"kubernetes.io/batch-cpu":"500","kubernetes.io/batch-memory":"1Gi"},"requests":{"kubernetes.io/batch-cpu":"500"}}}}`,
-			`{"containers":{"c7":{"requests":{"kubernetes.io/batch-memory":"64Mi"}},"c1":{"limits":{"kubernetes.io/batch-cpu":"1000"}}}}`})}
+			`{"containers":{"c7":{"requests":{"kubernetes.io/batch-memory":"64Mi"}},"c1":{"limits":{"kubernetes.io/batch-cpu":"1000"}}}}`,
+			`{"containers":{"c0":{"limits":{"kubernetes.io/batch-cpu":"1k","cpu":"1"},"requests":{"kubernetes.io/batch-cpu":"1e3"}}},"other":1}`,
+			`{"containers":{"c0":{"requests":{"kubernetes.io/batch-cpu":"-5","kubernetes.io/batch-memory":"0"}}}}`, `null`, `{"containers":null}`})}
 	case 2:
 		pod.Annotations = map[string]string{"other": "x"}
 	}
 	return pod
 }
 
-func c13GenProfiles(r *vRand) []c13Profile {
+var c13LabelVals = []string{"BE", "LS", "LSR", "LSE", "SYSTEM", "koord-batch", "koord-mid", "koord-prod", "koord-free", "foo", ""}
+
+func c13GenProfiles(r *vRand, pod *corev1.Pod) []c13Profile {
 	np := int(r.Pick([]int64{0, 1, 1, 1, 1, 1, 2, 2, 3}))
 	ids := r.Perm(10)[:np]
 	ps := make([]c13Profile, 0, np)
+	uniqueNames := true
+	seen := map[string]bool{}
+	for _, c := range pod.Spec.Containers {
+		if seen[c.Name] {
+			uniqueNames = false
+		}
+		seen[c.Name] = true
+	}
 	for _, id := range ids {
-		p := c13Profile{name: id, matched: vB(!r.Chance(1, 8)), skipRes: vB(r.Chance(1, 12)), qos: -1, pcLabel: -1}
+		p := c13Profile{name: id, matched: vB(!r.Chance(1, 8)), skipRes: vB(r.Chance(1, 12))}
 		if r.Chance(1, 4) {
 			p.hasProb, p.prob = 1, int(r.Pick([]int64{0, 0, 30, 50, 100}))
 		}
 		if r.Chance(1, 2) {
-			p.qos = int(r.Pick([]int64{4, 4, 4, 3, 2, 1, 5, 0}))
-		}
-		if r.Chance(1, 10) {
-			p.pcLabel = r.Intn(5)
+			p.hasQoS = true
+			if q := int(r.Pick([]int64{4, 4, 4, 3, 2, 1, 5, 0})); q == 0 {
+				p.qos = "foo"
+			} else {
+				p.qos = c13QoSNames[q]
+			}
 		}
 		if r.Chance(1, 2) {
 			p.hasPrio, p.prio = 1, int64(c13PriorityIn(r, int(r.Pick([]int64{3, 3, 3, 2, 2, 1, 4, 0}))))
@@ -436,15 +637,105 @@ func c13GenProfiles(r *vRand) []c13Profile {
 		if r.Chance(1, 5) {
 			p.hasSub, p.sub = 1, int64(r.Range(0, 5))
 		}
+		// spec.labels on the class labels / the foreign label
+		if r.Chance(1, 6) {
+			for _, k := range r.Perm(3)[:r.Range(1, 2)] {
+				v := c13PickStr(r, c13LabelVals)
+				if k == 1 && r.Chance(2, 3) {
+					v = c13PCNames[r.Intn(5)]
+				}
+				p.labels = append(p.labels, c13KV{k, v})
+			}
+		}
+		// labelKeysMapping: one entry (old -> new); old == new is legal
+		if r.Chance(1, 8) {
+			p.keyMap = append(p.keyMap, [2]int{r.Intn(3), r.Intn(3)})
+		}
+		// labelSuffixes
+		if r.Chance(1, 8) {
+			for _, k := range r.Perm(3)[:r.Range(1, 2)] {
+				p.suffixes = append(p.suffixes, c13KV{k, c13PickStr(r, []string{"", "R", "E", "-x", "BE", "koord-batch"})})
+			}
+		}
+		// spec.patch (strategic merge): labels, spec.priority, container resources
+		if r.Chance(1, 6) {
+			p.hasPatch = true
+			if r.Chance(1, 2) {
+				for _, k := range r.Perm(3)[:r.Range(1, 2)] {
+					p.patchLabels = append(p.patchLabels, c13KV{k, c13PickStr(r, c13LabelVals)})
+				}
+			}
+			if r.Chance(1, 3) {
+				p.hasPatchPrio, p.patchPrio = true, int64(c13PriorityIn(r, int(r.Pick([]int64{3, 3, 2, 1, 4, 0}))))
+			}
+			if uniqueNames && len(pod.Spec.Containers) > 0 && r.Chance(1, 2) {
+				n := r.Range(1, 2)
+				for i := 0; i < n; i++ {
+					res := int(r.Pick([]int64{0, 0, 1, 2, 3, 4}))
+					p.patchRes = append(p.patchRes, c13ResPatch{ctr: r.Intn(len(pod.Spec.Containers)), isLimit: vB(r.Bool()), res: res, q: c13Q(r, res)})
+				}
+			}
+		}
 		ps = append(ps, p)
 	}
 	return ps
 }
 
+func c13PatchJSON(p *c13Profile) []byte {
+	type m = map[string]interface{}
+	root := m{}
+	if len(p.patchLabels) > 0 {
+		lbl := m{}
+		for _, kv := range p.patchLabels {
+			lbl[c13LabelKeys[kv.key]] = kv.val
+		}
+		root["metadata"] = m{"labels": lbl}
+	}
+	spec := m{}
+	if p.hasPatchPrio {
+		spec["priority"] = p.patchPrio
+	}
+	if len(p.patchRes) > 0 {
+		byCtr := map[int]m{}
+		var order []int
+		for _, rp := range p.patchRes {
+			c, ok := byCtr[rp.ctr]
+			if !ok {
+				c = m{"name": fmt.Sprintf("c%d", rp.ctr), "resources": m{}}
+				byCtr[rp.ctr] = c
+				order = append(order, rp.ctr)
+			}
+			which := "requests"
+			if rp.isLimit == 1 {
+				which = "limits"
+			}
+			rs := c["resources"].(m)
+			if _, ok := rs[which]; !ok {
+				rs[which] = m{}
+			}
+			rs[which].(m)[string(c13ResNames[rp.res])] = rp.q.String()
+		}
+		// containers in pod order: strategic merge then keeps the order of spec.containers (a patch that
+		// lists them in another order reorders the pod's containers; that reordering is not modelled)
+		sort.Ints(order)
+		var cs []interface{}
+		for _, i := range order {
+			cs = append(cs, byCtr[i])
+		}
+		spec["containers"] = cs
+	}
+	if len(spec) > 0 {
+		root["spec"] = spec
+	}
+	data, _ := json.Marshal(root)
+	return data
+}
+
 func c13ProfileObjects(ps []c13Profile) []ctrlclient.Object {
 	var objs []ctrlclient.Object
 	seenPC := map[int64]bool{}
-	for _, p := range ps {
+	for i := range ps {
+		p := &ps[i]
 		o := &configv1alpha1.ClusterColocationProfile{ObjectMeta: metav1.ObjectMeta{Name: fmt.Sprintf("p%d", p.name)}}
 		if p.matched == 0 {
 			o.Spec.Selector = &metav1.LabelSelector{MatchLabels: map[string]string{"c13-no-such-label": "x"}}
@@ -452,21 +743,32 @@ func c13ProfileObjects(ps []c13Profile) []ctrlclient.Object {
 			o.Spec.Selector = &metav1.LabelSelector{} // empty selector matches everything
 		}
 		if p.skipRes == 1 {
-			o.Annotations = map[string]string{apiext.AnnotationSkipUpdateResource: "true"}
+			o.Annotations = map[string]string{c13AnnSkip: "true"}
 		}
 		if p.hasProb == 1 {
 			v := intstr.FromInt(p.prob)
 			o.Spec.Probability = &v
 		}
-		if p.qos == 0 {
-			o.Spec.QoSClass = "foo"
-		} else if p.qos > 0 {
-			o.Spec.QoSClass = c13QoSNames[p.qos]
+		if p.hasQoS {
+			o.Spec.QoSClass = p.qos
 		}
-		if p.pcLabel == 0 {
-			o.Spec.Labels = map[string]string{apiext.LabelPodPriorityClass: "foo"}
-		} else if p.pcLabel > 0 {
-			o.Spec.Labels = map[string]string{apiext.LabelPodPriorityClass: c13PCNames[p.pcLabel]}
+		if len(p.labels) > 0 {
+			o.Spec.Labels = map[string]string{}
+			for _, kv := range p.labels {
+				o.Spec.Labels[c13LabelKeys[kv.key]] = kv.val
+			}
+		}
+		if len(p.keyMap) > 0 {
+			o.Spec.LabelKeysMapping = map[string]string{}
+			for _, m := range p.keyMap {
+				o.Spec.LabelKeysMapping[c13LabelKeys[m[0]]] = c13LabelKeys[m[1]]
+			}
+		}
+		if len(p.suffixes) > 0 {
+			o.Spec.LabelSuffixes = map[string]string{}
+			for _, kv := range p.suffixes {
+				o.Spec.LabelSuffixes[c13LabelKeys[kv.key]] = kv.val
+			}
 		}
 		if p.hasPrio == 1 {
 			o.Spec.PriorityClassName = fmt.Sprintf("pc%d", p.prio)
@@ -479,6 +781,9 @@ func c13ProfileObjects(ps []c13Profile) []ctrlclient.Object {
 			v := int32(p.sub)
 			o.Spec.KoordinatorPriority = &v
 		}
+		if p.hasPatch {
+			o.Spec.Patch = runtime.RawExtension{Raw: c13PatchJSON(p)}
+		}
 		objs = append(objs, o)
 	}
 	return objs
@@ -489,15 +794,20 @@ func c13Obs(h *vHarness, pod *corev1.Pod) []string {
 	var lines []string
 	lines = append(lines, "meta "+c13EncMeta(pod))
 	for i := range pod.Spec.InitContainers {
-		lines = append(lines, "c 0 "+c13EncCtr(&pod.Spec.InitContainers[i]))
+		lines = append(lines, "c 0 "+c13EncCtrObs(&pod.Spec.InitContainers[i]))
 	}
 	for i := range pod.Spec.Containers {
-		lines = append(lines, "c 1 "+c13EncCtr(&pod.Spec.Containers[i]))
+		lines = append(lines, "c 1 "+c13EncCtrObs(&pod.Spec.Containers[i]))
 	}
 	if pod.Spec.Overhead != nil {
 		lines = append(lines, "ov 1 "+c13EncRL(pod.Spec.Overhead))
 	} else {
 		lines = append(lines, "ov 0")
+	}
+	if pod.Spec.Resources != nil {
+		lines = append(lines, "pl 1 "+c13EncRL(pod.Spec.Resources.Requests)+" "+c13EncRL(pod.Spec.Resources.Limits))
+	} else {
+		lines = append(lines, "pl 0")
 	}
 	lines = append(lines, "ann "+c13EncAnnot(pod.Annotations))
 	for _, l := range lines {
@@ -583,7 +893,7 @@ func c13CheckList(h *vHarness, where string, tier [2]corev1.ResourceName, before
 }
 
 func c13CheckAnnotation(h *vHarness, pod *corev1.Pod) {
-	spec := &apiext.ExtendedResourceSpec{}
+	spec := &c13ExtSpec{}
 	if data, ok := pod.Annotations["node.koordinator.sh/extended-resource-spec"]; ok {
 		if err := json.Unmarshal([]byte(data), spec); err != nil {
 			h.Fail("C13:annotation-mismatch", "annotation does not parse: %v", err)
@@ -640,14 +950,14 @@ func TestVerifC13Mutating(t *testing.T) {
 			continue
 		}
 		pod := c13GenMutatingPod(r)
-		profiles := c13GenProfiles(r)
+		profiles := c13GenProfiles(r, pod)
 		create := !r.Chance(1, 20)
 		gate := r.Chance(1, 15)
 		rnd := int(r.Pick([]int64{0, 29, 30, 31, 50, 51, 99}))
 
 		h.Op("pod 0 %s", c13EncPod(pod))
-		for _, p := range profiles {
-			h.Op("profile %d %d %d %d %d %d %d %d %d %d %d", p.name, p.matched, p.skipRes, p.hasProb, p.prob, p.qos, p.pcLabel, p.hasPrio, p.prio, p.hasSub, p.sub)
+		for i := range profiles {
+			h.Op("%s", profiles[i].opLine())
 		}
 		client := fake.NewClientBuilder().WithScheme(scheme.Scheme).WithObjects(c13ProfileObjects(profiles)...).Build()
 		handler := &PodMutatingHandler{Client: client, Decoder: decoder}
@@ -692,19 +1002,62 @@ func TestVerifC13Mutating(t *testing.T) {
 		if ok {
 			h.Tag("admit:ok")
 			// ---- property oracle on the first admission ----
-			anyMatched, anySkipRes := false, false
-			for _, p := range profiles {
+			anyMatched, anySkipRes, appliedSimple, resPatched := false, false, true, false
+			for i := range profiles {
+				p := &profiles[i]
 				if p.matched == 1 {
 					anyMatched = true
 					if p.skipRes == 1 {
 						anySkipRes = true
 					}
+					if create && !p.skipped(rnd) {
+						if !p.simple() {
+							appliedSimple = false
+						}
+						if len(p.patchRes) > 0 {
+							resPatched = true
+						}
+						if len(p.keyMap) > 0 {
+							h.Tag("profile:keymap")
+						}
+						if len(p.suffixes) > 0 {
+							h.Tag("profile:suffix")
+						}
+						if p.hasPatch {
+							h.Tag("profile:patch")
+						}
+						if len(p.labels) > 0 {
+							h.Tag("profile:labels")
+						}
+					}
 				}
+			}
+			nonNeg := c13AllNonNegative(before)
+			if !nonNeg {
+				h.Tag("quantities:negative")
+			}
+			if before.Spec.Resources != nil {
+				h.Tag("podlevel:set")
 			}
 			pc := c13OraclePC(pod) // explicit class of the pod as admitted (after the profiles)
 			h.Tag("class:" + pc)
 			tier, isTier := c13Tier[pc]
 			if create && anyMatched && !anySkipRes && !gate && isTier {
+				for _, cs := range [][]corev1.Container{pod.Spec.InitContainers, pod.Spec.Containers} {
+					for i := range cs {
+						for _, l := range []corev1.ResourceList{cs[i].Resources.Requests, cs[i].Resources.Limits} {
+							for _, n := range []corev1.ResourceName{"cpu", "memory"} {
+								if _, ok := l[n]; ok {
+									h.Fail("C13:native-left", "container %s still has %s after translation", cs[i].Name, n)
+								}
+							}
+						}
+					}
+				}
+			}
+			// amounts: compared against the pod before admission, so only when no applied profile patched
+			// resources, and (the statement speaks of amounts) only for non-negative quantities
+			if create && anyMatched && !anySkipRes && !gate && isTier && !resPatched && nonNeg {
 				h.Tag("translated:" + pc)
 				h.Nontrivial()
 				for li, lists := range [][2][]corev1.Container{{before.Spec.InitContainers, pod.Spec.InitContainers}, {before.Spec.Containers, pod.Spec.Containers}} {
@@ -725,12 +1078,19 @@ func TestVerifC13Mutating(t *testing.T) {
 				c13CheckAnnotation(h, pod)
 			}
 			// ---- admitting the result again changes nothing ----
+			// (demanded exactly under the hypothesis of theorem readmission_idempotent: every applied
+			// profile is simple; label suffixes / key mappings / resource patches are not idempotent by design)
 			again := pod.DeepCopy()
 			ok2, second := admit(again)
-			if !ok2 {
-				h.Fail("C13:not-idempotent", "re-admission of an admitted pod failed")
-			} else if strings.Join(first, "\n") != strings.Join(second, "\n") {
-				h.Fail("C13:not-idempotent", "re-admission changed the pod")
+			if appliedSimple {
+				h.Tag("readmit:simple")
+				if !ok2 {
+					h.Fail("C13:not-idempotent", "re-admission of an admitted pod failed")
+				} else if strings.Join(first, "\n") != strings.Join(second, "\n") {
+					h.Fail("C13:not-idempotent", "re-admission changed the pod")
+				}
+			} else {
+				h.Tag("readmit:not-simple")
 			}
 		}
 		restore()
